@@ -433,6 +433,10 @@ func writeComputedFieldExpression(w *formatting.IndentedWriter, expression dsl.E
 					// the power operator binds tighter than a unary minus: (-a) ** b
 					requiresParentheses = true
 				}
+				if t.Operator == dsl.BinaryOpPow && isNegativeLiteral(t.Left) {
+					// and than the sign of a negative literal: (-0.5) ** b
+					requiresParentheses = true
+				}
 				// ** is right-associative in Python: (a ** b) ** c keeps its parentheses
 				if l, ok := t.Left.(*dsl.BinaryExpression); ok && (l.Operator.Precedence() < t.Operator.Precedence() ||
 					(l.Operator.Precedence() == t.Operator.Precedence() && t.Operator == dsl.BinaryOpPow)) {
@@ -1232,4 +1236,14 @@ func getTypeSyntaxWithGenricArgsReadFromTupleArgs(t dsl.Type, context dTypeExpre
 	}
 
 	return f.ToSyntax(t, context.namespace)
+}
+
+func isNegativeLiteral(expression dsl.Expression) bool {
+	switch e := expression.(type) {
+	case *dsl.IntegerLiteralExpression:
+		return e.Value.Sign() < 0
+	case *dsl.FloatingPointLiteralExpression:
+		return strings.HasPrefix(e.Value, "-")
+	}
+	return false
 }
